@@ -81,6 +81,12 @@ class C17(Prop):
             if len(set(lk)) == len(lk):
                 st2 = [a[i] for _, i in sorted(zip(lk, range(len(a))))]
                 out.append(case("return sort(%s, true);" % lit(a), enc_value(st2), "sort-ci"))
+        # the result is a PERMUTATION of the input: every member as often as before - also members that differ only in case or in type
+        for a in arrays + [[3, "3", 10], ["bob", "Alice", "Bob"], ["a", "A", "a"], [1, 1.5, "1", "1.5"], ["x", "X", "x", "X", "y"], [True, "true", 2, "2", 2]]:
+            for call in ["sort(a)", "sort(a, true)", "reverse(a)", "reverse(a, true)", "sort(a, false)", "reverse(sort(a, true))"]:
+                src = ("a = %s; s = %s; n = 0; foreach x in a { c1 = 0; c2 = 0; foreach y in a { if (string(y) == string(x) && type(y) == type(x)) { c1++; } } "
+                       "foreach y in s { if (string(y) == string(x) && type(y) == type(x)) { c2++; } } if (c1 == c2) { n++; } } return [n, len(s)];" % (lit(a), call))
+                out.append(case(src, enc_value([len(a), len(a)]), "sort-permutation"))
         # join / split
         for s in ["", "a", "a,b,c", ",a,,b,", "héllo wörld", "aXXbXXc", "日本,語"]:
             for d in [",", "XX", " ", "", "ö"]:
